@@ -120,7 +120,7 @@ Proof.
     { unfold refusal. rewrite Hc, <- Hs, N.eqb_refl, (fits_room _ _ _ Hm), Ea. reflexivity. }
     destruct (handle_payload_accepted _ iq _ _ _ _ Hl Hr) as [d [Hd Hh]].
     rewrite Ea in Hd. injection Hd as <-. rewrite Hh.
-    set (c1 := mkrc (rc_sid c) (rc_bs c) (seq_next (rc_seq c)) (rc_buf c ++ a) (rc_max c) (rc_registered c) (rc_rclosed c)).
+    set (c1 := mkrc (rc_sid c) (rc_bs c) (seq_next (rc_seq c)) (rc_buf c ++ a) (rc_max c) (rc_registered c) (rc_rclosed c) (rc_werr c)).
     set (h1 := update h sid (fun _ => c1)).
     assert (Hl1 : lookup h1 sid = Some c1).
     { unfold lookup, h1. rewrite find_conn_update.
@@ -399,7 +399,7 @@ Qed.
 (* ===================================================================== *)
 
 Definition pinned_witness_conn : rconn :=
-  mkrc (str "a") 8 1 (str "ABC") (Z.of_N ibb_max_buffer) true false.
+  mkrc (str "a") 8 1 (str "ABC") (Z.of_N ibb_max_buffer) true false false.
 
 (* a packet refused with bad-request left its decoded prefix in the buffer and
    used up its sequence number *)
@@ -428,3 +428,60 @@ Theorem packets_decodable_and_carry_written : forall bs seq0 ops,
 Proof.
   intros bs seq0 ops. exact (conj (packets_each_decodable bs seq0 ops) (packets_carry_written bs seq0 ops)).
 Qed.
+
+(* ===================================================================== *)
+(* 4. the peer's close request and the local writer's errors               *)
+(* ===================================================================== *)
+
+(* A close request for a registered stream is acknowledged and deregisters it,
+   whatever state the connection is in — in particular when a data packet of
+   the local writer was refused earlier and its error is still pending. What
+   was buffered for the reader is untouched. *)
+Theorem peer_close_always_answered : forall h sid c,
+  lookup h sid = Some c ->
+  h_step h (ECloseRemote sid) = (update h sid set_rclosed, OReply RAck) /\
+  lookup (update h sid set_rclosed) sid = None /\
+  buf_of (update h sid set_rclosed) sid = rc_buf c /\
+  find_conn (update h sid set_rclosed) sid = Some (set_rclosed c).
+Proof.
+  intros h sid c H. pose proof (lookup_find _ _ _ H) as Hf.
+  split; [apply (close_remote_known _ _ _ H)|].
+  split; [apply (lookup_after_close _ _ _ Hf)|].
+  split; [|apply (find_after_close _ _ _ Hf)].
+  unfold buf_of. rewrite (find_after_close _ _ _ Hf). reflexivity.
+Qed.
+
+(* the same after every history *)
+Theorem peer_close_answered_after_any_history : forall es h os sid c,
+  h_run [] es = (h, os) -> lookup h sid = Some c ->
+  snd (h_step h (ECloseRemote sid)) = OReply RAck.
+Proof.
+  intros es h os sid c _ H. rewrite (close_remote_known _ _ _ H). reflexivity.
+Qed.
+
+(* A refused data packet is the local writer's business: that Write/Flush
+   fails, every later one fails the same way and sends nothing, and the
+   handler's read side is exactly as before. *)
+Theorem refused_write_sticks : forall h sid c,
+  find_conn h sid = Some c -> rc_rclosed c = false -> rc_werr c = false ->
+  let h1 := update h sid set_werr in
+  h_step h (EWrite sid false) = (h1, OWrite false) /\
+  (forall acc, h_step h1 (EWrite sid acc) = (h1, OWrite false)) /\
+  (forall s, buf_of h1 s = buf_of h s) /\
+  (lookup h sid = Some c -> lookup h1 sid = Some (set_werr c)).
+Proof.
+  intros h sid c Hf Hc Hw h1.
+  assert (Hf1 : find_conn h1 sid = Some (set_werr c)).
+  { unfold h1. rewrite find_conn_update by (intros; reflexivity). rewrite bytes_eqb_refl, Hf. reflexivity. }
+  split; [|split; [|split]].
+  - cbn [h_step]. rewrite Hf, Hc, Hw. reflexivity.
+  - intro acc. cbn [h_step]. rewrite Hf1. cbn [set_werr rc_rclosed rc_werr]. rewrite Hc. reflexivity.
+  - intro s. apply buf_of_update_keep; intros; reflexivity.
+  - intro Hl. unfold lookup in *. rewrite Hf1. rewrite Hf in Hl. cbn [set_werr rc_registered].
+    destruct (rc_registered c); [reflexivity|discriminate].
+Qed.
+
+(* before the repair: with the stale error pending the request was not answered *)
+Theorem stale_write_error_left_close_unanswered :
+  exists c, rc_werr c = true /\ rc_rclosed c = false /\ close_remote_reply_stale c = None.
+Proof. exists (set_werr (new_conn (str "a") 8)). repeat split; reflexivity. Qed.
